@@ -220,6 +220,8 @@ def r3(tree, rep):
 
 
 def run(tree, rep, tier):
+    from .. import sharedstate
+    sharedstate.check(tree, rep, "C15.R0")
     r1(tree, rep)
     r2(tree, rep)
     r3(tree, rep)
